@@ -120,6 +120,7 @@ def handle (j : Json) : Json :=
   let oj : Res JV → Json := fun o => match o with
     | .ok v => toJson v
     | .error .panic => jobj [("panic", Json.bool true)]
+    | .error .unparsed => jobj [("unparsed", Json.bool true)]
     | .error .fuel => Json.str "<out of fuel>"
   jobj [
     ("model", jobj [("first", oj first), ("second", oj second)]),
